@@ -115,6 +115,7 @@ func runC20_2(c *core.Ctx) {
 	const (
 		fGuard = 1 << iota
 		fSmall
+		fOver
 	)
 	p := &flow.Problem{Must: true}
 	p.Edge = func(e *flow.Edge, in uint64) uint64 {
@@ -126,8 +127,14 @@ func runC20_2(c *core.Ctx) {
 			return in
 		}
 		// n > maxintHeadBit false  (the panic guard not taken)
-		if flow.ObjOf(f.Info, x) == types.Object(n) && flow.ObjOf(f.Info, y) == types.Object(head) && op == token.GTR && !e.Sense {
-			in |= fGuard
+		if flow.ObjOf(f.Info, x) == types.Object(n) && flow.ObjOf(f.Info, y) == types.Object(head) {
+			switch {
+			case (op == token.GTR || op == token.GEQ) && !e.Sense, (op == token.LEQ || op == token.LSS) && e.Sense:
+				in |= fGuard // n <= 2^(W-2): the shift count stays below W-1
+			}
+			if (op == token.GTR && e.Sense) || (op == token.LEQ && !e.Sense) {
+				in |= fOver // n > 2^(W-2): no power of two >= n fits in int
+			}
 		}
 		// n & maxintHeadBit != 0 false  => n < 2^(W-2) for non-negative n
 		if be, ok := ast.Unparen(x).(*ast.BinaryExpr); ok && be.Op == token.AND && flow.ObjOf(f.Info, be.X) == types.Object(n) && flow.ObjOf(f.Info, be.Y) == types.Object(head) {
@@ -181,6 +188,18 @@ func runC20_2(c *core.Ctx) {
 	if !found {
 		c.Violate(f.Name, "result is 1 << bits.Len(uint(n-1))", f.Decl.Pos(), "no variable shift found in CeilToPowerOfTwo")
 	}
+	// completeness: the function gives up only when no answer exists
+	panics := 0
+	sol.Walk(func(b *flow.Block, i int, nd ast.Node, before uint64) {
+		for _, call := range flow.Calls(nd) {
+			if !flow.NeverReturns(f.Info, call) {
+				continue
+			}
+			panics++
+			c.Check(before&fOver != 0, f.Name, "panic #"+itoa(panics)+" only above 2^(W-2)", call.Pos(), "reached only with n > maxintHeadBit",
+				"CeilToPowerOfTwo can panic although n > maxintHeadBit is not established: for n == 2^(W-2) the answer (n itself) exists, so the function refuses an argument it must accept", sol.Witness(b, fOver)...)
+		}
+	})
 	// IsPowerOfTwo
 	ip := getFn(c, "pkg/math", "IsPowerOfTwo")
 	if ip == nil {
